@@ -637,6 +637,25 @@ func newNode(c *Ctx, dir, id string) *Node {
 	return n
 }
 
+// startNode starts (or restarts) the daemon and waits until its work type is registered: the
+// control socket answers before the work-command section of the configuration has been applied.
+func startNode(n *Node) {
+	Must(n.Start())
+	deadline := time.Now().Add(15 * time.Second)
+	for {
+		unit, _, err := Submit(n.Sock, map[string]interface{}{"worktype": "sh", "params": shQuote("exit 0")}, []byte("x"), tmo)
+		if err == nil {
+			WaitFor(3*time.Second, func() bool { st, _, _ := diskStatus(n, unit); return st >= 2 })
+			_, _ = OneShot(n.Sock, map[string]interface{}{"command": "work", "subcommand": "release", "unitid": unit}, tmo)
+			return
+		}
+		if !strings.Contains(err.Error(), "unknown work type") || time.Now().After(deadline) {
+			Must(fmt.Errorf("daemon %s does not accept work: %v", n.ID, err))
+		}
+		time.Sleep(50 * time.Millisecond)
+	}
+}
+
 func waitListed(n *Node, unit string, d time.Duration) bool {
 	return WaitFor(d, func() bool {
 		m, err := WorkList(n.Sock, 2*time.Second)
@@ -666,7 +685,7 @@ func diskStatus(n *Node, unit string) (state int, detail string, pid int) {
 
 func part1(c *Ctx, im *Impl, cf *CaseFile, tmp string) {
 	n := newNode(c, filepath.Join(tmp, "n1"), "n1")
-	Must(n.Start())
+	startNode(n)
 	defer func() { n.Stop(); n.KillStrays() }()
 	daemonPids := map[int]bool{n.Cmd.Process.Pid: true}
 	nUnits, par := 48, 8
@@ -892,7 +911,7 @@ func raceRestartCancel(c *Ctx, im *Impl, cf *CaseFile, n *Node, daemonPids map[i
 		return
 	}
 	n.Kill()
-	Must(n.Start())
+	startNode(n)
 	daemonPids[n.Cmd.Process.Pid] = true
 	if !waitListed(n, unit, 5*time.Second) {
 		im.Violate("unit not listed after restart", "c13-unit-lost-at-restart", nil)
@@ -928,7 +947,7 @@ func raceRestartPending(c *Ctx, im *Impl, cf *CaseFile, n *Node, daemonPids map[
 		return
 	}
 	n.Kill()
-	Must(n.Start())
+	startNode(n)
 	daemonPids[n.Cmd.Process.Pid] = true
 	if !waitListed(n, unit, 5*time.Second) {
 		im.Violate("unit not listed after restart", "c13-unit-lost-at-restart", nil)
@@ -946,7 +965,7 @@ func raceRestartPending(c *Ctx, im *Impl, cf *CaseFile, n *Node, daemonPids map[
 
 func part2(c *Ctx, im *Impl, cf *CaseFile, tmp string) {
 	n := newNode(c, filepath.Join(tmp, "n2"), "n2")
-	Must(n.Start())
+	startNode(n)
 	defer func() { n.Stop(); n.KillStrays() }()
 	daemonPids := map[int]bool{n.Cmd.Process.Pid: true}
 	nCF, nCH, nRC, nRP := 5, 3, 3, 2
@@ -1339,7 +1358,7 @@ var rng4 *Rng // part 4 runs next to the other parts: its own stream, derived fr
 func part4(c *Ctx, im *Impl, tmp string) {
 	rng4 = NewRng(c.Seed + 4000)
 	n := newNode(c, filepath.Join(tmp, "n3"), "n3")
-	Must(n.Start())
+	startNode(n)
 	defer func() { n.Stop(); n.KillStrays() }()
 	rounds := 10
 	if c.Thorough() {
@@ -1450,7 +1469,7 @@ func ignoringUnit(c *Ctx, im *Impl, cf *CaseFile, n *Node, daemonPids map[int]bo
 
 func part5(c *Ctx, im *Impl, cf *CaseFile, tmp string) {
 	n := newNode(c, filepath.Join(tmp, "n4"), "n4")
-	Must(n.Start())
+	startNode(n)
 	defer func() { n.Stop(); n.KillStrays() }()
 	daemonPids := map[int]bool{n.Cmd.Process.Pid: true}
 	subs := []string{"cancel", "release", "force-release"}
